@@ -117,6 +117,15 @@ CHECKS = {
        "observed on the worker process (bisected to the single input). Inputs <= 4 KB. Hang back-stop 60 s per input.",
   tech="TLA+ stage machine; TLC trace validation of recorded stage-event traces from isolated workers over TLC-enumerated adversarial inputs",
   ref="DESIGN.md 9/C03"),
+ "C02": dict(
+  text="Every module the pipeline emits - for the programs of the TLC-enumerated families, the token soup and adversarial shapes "
+       "of spec/PipelineInputs.tla, every repository sample, seeded token-level mutants of all of them and a literal-lexeme "
+       "grid, with annotate off and on - is handed to CPython's compile(); TLC (spec/CompileJudge.tla) accepts a record iff the "
+       "input was rejected with diagnostics or the emitted text compiled.",
+  note="'Accepted by the Python 3 compiler' = compile(text, name, 'exec') of CPython 3.11. Open known findings KF-C02-1..5 are "
+       "keyed by compiler message / shape of the emitted text.",
+  tech="CPython compile() of every emitted module over TLC-enumerated inputs + mutants, judged by TLC",
+  ref="DESIGN.md 9/C02"),
 }
 
 PENDING_REASON = "check not built yet in this snapshot (work in progress; see DESIGN.md section 13)"
